@@ -1082,7 +1082,11 @@ impl Oracle {
                         let excess = self.conns[c].b_inflight - rm;
                         let ctx = if self.conns[c].window_below_inflight {
                             // the broker resumed the session with a window smaller than what was already in flight
-                            "replay-exceeds-window-lowered-by-broker".to_string()
+                            if replayed {
+                                "replay-exceeds-window-lowered-by-broker".to_string()
+                            } else {
+                                "new-publish-exceeds-window-lowered-by-broker".to_string()
+                            }
                         } else if self.conns[c].b_rec_wait >= excess {
                             "awaiting-pubcomp".to_string()
                         } else if self.conns[c].b_replayed_unacked > 0 {
